@@ -4,22 +4,53 @@ Helper definitions and lemmas for the server part of C44.
 import ElvModel.C44.Server
 import ElvProofs.C44.Lemmas
 import ElvProofs.C44.Chars
+import ElvProofs.C44.Hover
 namespace C44
 open Go
 
 /-- The completer parameter of a text is defined at every boundary offset
 (`complete.Complete` is a total function; the model only sees a table). -/
+def Text.wf (t : Text) : Prop := ∀ b ∈ boundaries t.code, (t.comp.lookup b).isSome = true
+
 def Doc.wf (d : Doc) : Prop := ∀ b ∈ boundaries d.code, (d.comp.lookup b).isSome = true
 
-def Server.wf (s : Server) : Prop := ∀ e ∈ s.docs, e.2.wf
+/-- The stored tree and errors are what `parse.Parse` returns for the stored text. -/
+def Doc.Parsed (lib : Lib) (d : Doc) : Prop := C01.parse lib.isPrint d.code = .ok d.tree d.errs
+
+def Server.wf (lib : Lib) (s : Server) : Prop := ∀ e ∈ s.docs, e.2.wf ∧ e.2.Parsed lib
 
 def Req.wf : Req → Prop
-  | .didOpen _ d => d.wf
-  | .didChange _ cs => ∀ d ∈ cs, d.wf
+  | .didOpen _ t => t.wf
+  | .didChange _ cs => ∀ t ∈ cs, t.wf
   | _ => True
 
-/-- The diagnostics ranges the property specifies for a document. -/
-def specRanges (d : Doc) : List Rng := d.errs.map fun e => (specPos d.code e.1, specPos d.code e.2)
+/-- The diagnostic the property specifies for ONE parse error of a text: the
+error's own range, both ends converted by the position specification, and the
+error's own message. -/
+def specDiag (code : Bytes) (e : C01.PErr) : DiagItem :=
+  ((specPos code e.frm, specPos code e.to), e.msg)
+
+/-- The diagnostics the property specifies for a document: one per parse
+error, in order. -/
+def specDiags (d : Doc) : List DiagItem := d.errs.map (specDiag d.code)
+
+/-- `parse.Parse` returns for every text (`C01_total_lossless`): the document is built. -/
+theorem parseText_ok (lib : Lib) (t : Text) :
+    ∃ d, parseText lib t = .ok d ∧ d.code = t.code ∧ d.comp = t.comp ∧ d.Parsed lib := by
+  obtain ⟨tree, errs, h, _⟩ := C01_total_lossless lib.isPrint t.code
+  refine ⟨⟨t.code, tree, errs, t.comp⟩, ?_, rfl, rfl, h⟩
+  simp only [parseText, h]
+
+theorem parseText_inv {lib : Lib} {t : Text} {d : Doc} (h : parseText lib t = .ok d) :
+    d.code = t.code ∧ d.comp = t.comp ∧ d.Parsed lib := by
+  unfold parseText at h
+  cases hp : C01.parse lib.isPrint t.code with
+  | ok tree errs =>
+    simp only [hp, Res.ok.injEq] at h
+    subst h
+    exact ⟨rfl, rfl, hp⟩
+  | panic w => simp [hp] at h
+  | fuel => simp [hp] at h
 
 theorem mem_of_lookup {β : Type} (k : Bytes) (v : β) : ∀ (l : List (Bytes × β)), l.lookup k = some v → (k, v) ∈ l := by
   intro l
@@ -55,8 +86,8 @@ theorem lookup_filter_ne {β : Type} (k u : Bytes) (hku : k ≠ u) : ∀ (l : Li
       simp only [if_true, List.lookup]
       split <;> simp_all
 
-theorem updateDocument_wf (s : Server) (uri : Bytes) (d : Doc) (hs : s.wf) (hd : d.wf) :
-    (updateDocument .fixed s uri d).1.wf := by
+theorem updateDocument_wf (lib : Lib) (s : Server) (uri : Bytes) (d : Doc) (hs : s.wf lib)
+    (hd : d.wf ∧ d.Parsed lib) : (updateDocument .fixed s uri d).1.wf lib := by
   intro e he
   simp only [updateDocument] at he
   rcases List.mem_cons.mp he with rfl | he
@@ -84,39 +115,59 @@ theorem rangeOfVisits_spec (s : Bytes) (f t : Int) :
   simp [rangeOfVisits, key]
 
 theorem updateDocument_diag (s : Server) (uri : Bytes) (d : Doc) :
-    (updateDocument .fixed s uri d).2 = (uri, specRanges d) := by
-  simp [updateDocument, specRanges, rangeOfVisits_spec]
+    (updateDocument .fixed s uri d).2 = (uri, specDiags d) := by
+  simp [updateDocument, specDiags, specDiag, rangeOfVisits_spec]
 
-theorem didOpen_ok (s : Server) (uri : Bytes) (d : Doc) (hs : s.wf) (hd : d.wf) :
-    ∃ o, didOpen .fixed s uri d = .ok o ∧ o.srv.wf :=
-  ⟨_, rfl, updateDocument_wf s uri d hs hd⟩
+/-- `updateDocument` of the code = parse, store, publish. -/
+theorem updateText_eq (lib : Lib) (s : Server) (uri : Bytes) (t : Text) :
+    ∃ d, parseText lib t = .ok d ∧
+      updateText .fixed lib s uri t =
+        .ok ⟨(updateDocument .fixed s uri d).1, .null, some (updateDocument .fixed s uri d).2⟩ := by
+  obtain ⟨d, hd, _⟩ := parseText_ok lib t
+  exact ⟨d, hd, by simp only [updateText, hd, bind, Res.bind, pure]⟩
 
-theorem didChange_ok (s : Server) (uri : Bytes) (cs : List Doc) (hs : s.wf) (hd : ∀ d ∈ cs, d.wf) :
-    ∃ o, didChange .fixed s uri cs = .ok o ∧ o.srv.wf := by
+theorem updateText_ok (lib : Lib) (s : Server) (uri : Bytes) (t : Text) (hs : s.wf lib) (ht : t.wf) :
+    ∃ o, updateText .fixed lib s uri t = .ok o ∧ o.srv.wf lib := by
+  obtain ⟨d, hd, he⟩ := updateText_eq lib s uri t
+  obtain ⟨hc, hm, hp⟩ := parseText_inv hd
+  refine ⟨_, he, updateDocument_wf lib s uri d hs ⟨?_, hp⟩⟩
+  intro b hb
+  rw [hm]; rw [hc] at hb
+  exact ht b hb
+
+theorem didOpen_ok (lib : Lib) (s : Server) (uri : Bytes) (t : Text) (hs : s.wf lib) (ht : t.wf) :
+    ∃ o, didOpen .fixed lib s uri t = .ok o ∧ o.srv.wf lib :=
+  updateText_ok lib s uri t hs ht
+
+theorem didChange_ok (lib : Lib) (s : Server) (uri : Bytes) (cs : List Text) (hs : s.wf lib)
+    (hd : ∀ t ∈ cs, t.wf) : ∃ o, didChange .fixed lib s uri cs = .ok o ∧ o.srv.wf lib := by
   unfold didChange
   cases h : cs.getLast? with
   | none => exact ⟨_, rfl, hs⟩
-  | some d => exact ⟨_, rfl, updateDocument_wf s uri d hs (hd d (List.mem_of_getLast? h))⟩
+  | some t => exact updateText_ok lib s uri t hs (hd t (List.mem_of_getLast? h))
 
-theorem hover_ok (s : Server) (uri : Bytes) (l c : Int) (hs : s.wf) :
-    ∃ o, hover .fixed s uri l c = .ok o ∧ o.srv.wf := by
+theorem hover_ok (lib : Lib) (s : Server) (uri : Bytes) (l c : Int) (hs : s.wf lib)
+    (hh : ParserHeads lib.isPrint) : ∃ o, hover .fixed lib s uri l c = .ok o ∧ o.srv.wf lib := by
   unfold hover
-  cases s.find uri with
+  cases hf : s.find uri with
   | none => exact ⟨_, rfl, hs⟩
-  | some d => exact ⟨_, rfl, hs⟩
+  | some d =>
+    have hp : d.Parsed lib := (hs _ (mem_of_lookup uri d s.docs hf)).2
+    obtain ⟨c', hc⟩ := hoverContent_ok lib d.tree (toIdxV .fixed d.code l c) (hh _ _ _ hp)
+    exact ⟨⟨s, .hover c', none⟩, by simp only [hc, bind, Res.bind, pure], hs⟩
 
 theorem toIdx_boundary (s : Bytes) (line char : Int) : toIdxV .fixed s line char ∈ boundaries s := by
   have := toIdx_mem .fixed s.length line char (chars s) ⟨0, 0⟩ false 0
   rw [visitsFrom_offsets] at this
   exact this
 
-theorem completion_ok (s : Server) (uri : Bytes) (l c : Int) (hs : s.wf) :
-    ∃ o, completion .fixed s uri l c = .ok o ∧ o.srv.wf := by
+theorem completion_ok (lib : Lib) (s : Server) (uri : Bytes) (l c : Int) (hs : s.wf lib) :
+    ∃ o, completion .fixed s uri l c = .ok o ∧ o.srv.wf lib := by
   unfold completion
   cases hf : s.find uri with
   | none => exact ⟨_, rfl, hs⟩
   | some d =>
-    have hd : d.wf := hs _ (mem_of_lookup uri d s.docs hf)
+    have hd : d.wf := (hs _ (mem_of_lookup uri d s.docs hf)).1
     have := hd _ (toIdx_boundary d.code l c)
     simp only
     cases hl : d.comp.lookup (toIdxV .fixed d.code l c) with
@@ -130,13 +181,14 @@ theorem completion_ok (s : Server) (uri : Bytes) (l c : Int) (hs : s.wf) :
         · exact ⟨_, rfl, hs⟩
         · exact ⟨_, rfl, hs⟩
 
-theorem handle_ok (empty : Doc) (s : Server) (r : Req) (he : empty.wf) (hs : s.wf) (hr : r.wf) :
-    ∃ o, handle .fixed empty s r = .ok o ∧ o.srv.wf := by
+theorem handle_ok (lib : Lib) (empty : Text) (s : Server) (r : Req) (he : empty.wf) (hs : s.wf lib)
+    (hr : r.wf) (hh : ParserHeads lib.isPrint) :
+    ∃ o, handle .fixed lib empty s r = .ok o ∧ o.srv.wf lib := by
   cases r with
-  | didOpen uri d => exact didOpen_ok s uri d hs hr
-  | didChange uri cs => exact didChange_ok s uri cs hs hr
-  | hover uri l c => exact hover_ok s uri l c hs
-  | completion uri l c => exact completion_ok s uri l c hs
+  | didOpen uri d => exact didOpen_ok lib s uri d hs hr
+  | didChange uri cs => exact didChange_ok lib s uri cs hs hr
+  | hover uri l c => exact hover_ok lib s uri l c hs hh
+  | completion uri l c => exact completion_ok lib s uri l c hs
   | raw m pk =>
     simp only [handle]
     split
@@ -150,52 +202,64 @@ theorem handle_ok (empty : Doc) (s : Server) (r : Req) (he : empty.wf) (hs : s.w
     split
     · exact ⟨_, rfl, hs⟩
     split
-    · exact didOpen_ok s [] empty hs he
+    · exact didOpen_ok lib s [] empty hs he
     split
-    · exact didChange_ok s [] [] hs (by simp)
+    · exact didChange_ok lib s [] [] hs (by simp)
     split
-    · exact hover_ok s [] 0 0 hs
-    · exact completion_ok s [] 0 0 hs
+    · exact hover_ok lib s [] 0 0 hs hh
+    · exact completion_ok lib s [] 0 0 hs
 
 /-! ### the last diagnostics on the wire describe the stored document -/
 
 /-- The diagnostics a client currently shows for `uri`: those of the last
 `publishDiagnostics` it received for that URI. -/
-def lastFor (uri : Bytes) (sent : List Diag) : Option (List Rng) :=
+def lastFor (uri : Bytes) (sent : List Diag) : Option (List DiagItem) :=
   (sent.reverse.find? fun d => d.1 == uri).map (·.2)
 
 def Inv (s : Server) (sent : List Diag) : Prop :=
-  ∀ uri, lastFor uri sent = (s.find uri).map specRanges
+  ∀ uri, lastFor uri sent = (s.find uri).map specDiags
 
-theorem lastFor_snoc (uri u : Bytes) (r : List Rng) (sent : List Diag) :
+theorem lastFor_snoc (uri u : Bytes) (r : List DiagItem) (sent : List Diag) :
     lastFor uri (sent ++ [(u, r)]) = if u = uri then some r else lastFor uri sent := by
   unfold lastFor
   by_cases h : u = uri <;> simp [List.reverse_append, List.find?_cons, h]
 
 /-- A handler either leaves the table alone and publishes nothing, or is one
-`updateDocument`. -/
-theorem handle_shape (empty : Doc) (s : Server) (r : Req) (o : HOut)
-    (h : handle .fixed empty s r = .ok o) :
+`updateDocument` of a text it has parsed. -/
+theorem handle_shape (lib : Lib) (empty : Text) (s : Server) (r : Req) (o : HOut)
+    (h : handle .fixed lib empty s r = .ok o) :
     (o.srv = s ∧ o.diag = none) ∨
-    ∃ uri d, o.srv = (updateDocument .fixed s uri d).1 ∧ o.diag = some (updateDocument .fixed s uri d).2 := by
-  have open_ : ∀ uri d o, didOpen .fixed s uri d = .ok o →
-      ∃ uri d, o.srv = (updateDocument .fixed s uri d).1 ∧ o.diag = some (updateDocument .fixed s uri d).2 := by
-    intro uri d o h
-    simp only [didOpen, pure, Res.ok.injEq] at h
+    ∃ uri t d, parseText lib t = .ok d ∧
+      o.srv = (updateDocument .fixed s uri d).1 ∧ o.diag = some (updateDocument .fixed s uri d).2 := by
+  have upd_ : ∀ uri t o, updateText .fixed lib s uri t = .ok o →
+      ∃ uri t d, parseText lib t = .ok d ∧
+        o.srv = (updateDocument .fixed s uri d).1 ∧ o.diag = some (updateDocument .fixed s uri d).2 := by
+    intro uri t o h
+    obtain ⟨d, hd, he⟩ := updateText_eq lib s uri t
+    rw [he] at h
+    simp only [Res.ok.injEq] at h
     subst h
-    exact ⟨uri, d, rfl, rfl⟩
-  have change_ : ∀ uri cs o, didChange .fixed s uri cs = .ok o →
+    exact ⟨uri, t, d, hd, rfl, rfl⟩
+  have change_ : ∀ uri cs o, didChange .fixed lib s uri cs = .ok o →
       (o.srv = s ∧ o.diag = none) ∨
-      ∃ uri d, o.srv = (updateDocument .fixed s uri d).1 ∧ o.diag = some (updateDocument .fixed s uri d).2 := by
+      ∃ uri t d, parseText lib t = .ok d ∧
+        o.srv = (updateDocument .fixed s uri d).1 ∧ o.diag = some (updateDocument .fixed s uri d).2 := by
     intro uri cs o h
     unfold didChange at h
     cases hl : cs.getLast? with
     | none => simp only [hl, pure, Res.ok.injEq] at h; subst h; exact .inl ⟨rfl, rfl⟩
-    | some d => simp only [hl, pure, Res.ok.injEq] at h; subst h; exact .inr ⟨uri, d, rfl, rfl⟩
-  have hover_ : ∀ uri l c o, hover .fixed s uri l c = .ok o → (o.srv = s ∧ o.diag = none) := by
+    | some t => simp only [hl] at h; exact .inr (upd_ uri t o h)
+  have hover_ : ∀ uri l c o, hover .fixed lib s uri l c = .ok o → (o.srv = s ∧ o.diag = none) := by
     intro uri l c o h
     unfold hover at h
-    cases hf : s.find uri <;> simp only [hf, pure, Res.ok.injEq] at h <;> subst h <;> exact ⟨rfl, rfl⟩
+    cases hf : s.find uri with
+    | none => simp only [hf, pure, Res.ok.injEq] at h; subst h; exact ⟨rfl, rfl⟩
+    | some d =>
+      simp only [hf, bind, Res.bind] at h
+      cases hc : hoverContent lib d.tree (toIdxV .fixed d.code l c) with
+      | ok c' => simp only [hc, pure, Res.ok.injEq] at h; subst h; exact ⟨rfl, rfl⟩
+      | exc e => simp [hc] at h
+      | panic w => simp [hc] at h
   have comp_ : ∀ uri l c o, completion .fixed s uri l c = .ok o → (o.srv = s ∧ o.diag = none) := by
     intro uri l c o h
     unfold completion at h
@@ -212,7 +276,7 @@ theorem handle_shape (empty : Doc) (s : Server) (r : Req) (o : HOut)
           simp only [hl] at h
           split at h <;> simp only [pure, Res.ok.injEq] at h <;> subst h <;> exact ⟨rfl, rfl⟩
   cases r with
-  | didOpen uri d => exact .inr (open_ uri d o h)
+  | didOpen uri t => exact .inr (upd_ uri t o h)
   | didChange uri cs => exact change_ uri cs o h
   | hover uri l c => exact .inl (hover_ uri l c o h)
   | completion uri l c => exact .inl (comp_ uri l c o h)
@@ -229,16 +293,16 @@ theorem handle_shape (empty : Doc) (s : Server) (r : Req) (o : HOut)
     split at h
     · simp only [pure, Res.ok.injEq] at h; subst h; exact .inl ⟨rfl, rfl⟩
     split at h
-    · exact .inr (open_ _ _ o h)
+    · exact .inr (upd_ _ _ o h)
     split at h
     · exact change_ _ _ o h
     split at h
     · exact .inl (hover_ _ _ _ o h)
     · exact .inl (comp_ _ _ _ o h)
 
-theorem Inv_step (empty : Doc) (s : Server) (r : Req) (o : HOut) (sent : List Diag)
-    (h : handle .fixed empty s r = .ok o) (hi : Inv s sent) : Inv o.srv (sent ++ o.diag.toList) := by
-  rcases handle_shape empty s r o h with ⟨h1, h2⟩ | ⟨uri, d, h1, h2⟩
+theorem Inv_step (lib : Lib) (empty : Text) (s : Server) (r : Req) (o : HOut) (sent : List Diag)
+    (h : handle .fixed lib empty s r = .ok o) (hi : Inv s sent) : Inv o.srv (sent ++ o.diag.toList) := by
+  rcases handle_shape lib empty s r o h with ⟨h1, h2⟩ | ⟨uri, _, d, _, h1, h2⟩
   · rw [h1, h2]; simpa using hi
   · rw [h1, h2, updateDocument_diag]
     intro k
@@ -248,8 +312,8 @@ theorem Inv_step (empty : Doc) (s : Server) (r : Req) (o : HOut) (sent : List Di
     · have hk' : k ≠ uri := fun e => hk e.symm
       simp [hk, updateDocument_find_ne _ _ _ _ _ hk', hi k]
 
-theorem Inv_serveAll (empty : Doc) : ∀ (reqs : List (Bool × Req)) (s : Server) (sent : List Diag)
-    (s' : Server) (os : List Out), serveAll .fixed empty s reqs = .ok (s', os) → Inv s sent →
+theorem Inv_serveAll (lib : Lib) (empty : Text) : ∀ (reqs : List (Bool × Req)) (s : Server) (sent : List Diag)
+    (s' : Server) (os : List Out), serveAll .fixed lib empty s reqs = .ok (s', os) → Inv s sent →
     Inv s' (sent ++ published os) := by
   intro reqs
   induction reqs with
@@ -262,19 +326,19 @@ theorem Inv_serveAll (empty : Doc) : ∀ (reqs : List (Bool × Req)) (s : Server
     intro s sent s' os h hi
     obtain ⟨hasId, r⟩ := q
     simp only [serveAll, serve, bind, Res.bind] at h
-    cases hh : handle .fixed empty s r with
+    cases hh : handle .fixed lib empty s r with
     | exc e => simp [hh] at h
     | panic w => simp [hh] at h
     | ok o =>
       simp only [hh, pure] at h
-      cases hr : serveAll .fixed empty o.srv reqs with
+      cases hr : serveAll .fixed lib empty o.srv reqs with
       | exc e => simp [hr] at h
       | panic w => simp [hr] at h
       | ok p =>
         obtain ⟨s2, os2⟩ := p
         simp only [hr, Res.ok.injEq, Prod.mk.injEq] at h
         obtain ⟨rfl, rfl⟩ := h
-        have := ih o.srv (sent ++ o.diag.toList) s2 os2 hr (Inv_step empty s r o sent hh hi)
+        have := ih o.srv (sent ++ o.diag.toList) s2 os2 hr (Inv_step lib empty s r o sent hh hi)
         have e : published (⟨o.srv, if hasId then Reply.res o.res else Reply.none, o.diag⟩ :: os2)
             = o.diag.toList ++ published os2 := by
           cases hd : o.diag <;> simp [published, List.filterMap_cons, hd]
